@@ -70,6 +70,8 @@ class _WFile:
     def close(self):
         was_closed = self._f.closed
         self._f.close()
+        if not was_closed and self._note is not None:
+            self._note()
         if self._mode == 'after' and not self._fired and not was_closed:
             object.__setattr__(self, '_fired', True)
             raise InjectedFault('injected: close reported failure after the data was written')
@@ -279,7 +281,8 @@ class RecFS(LocalFileSystem):
             f = super().open(path, mode=mode, **kw)
             if writing:
                 rp = self.rel(path)
-                f = _WFile(f, kind, rp)
+                cb = self.on_write_closed
+                f = _WFile(f, kind, (lambda: cb(rp)) if cb else None)
             return f
         finally:
             self._leave()
@@ -301,3 +304,68 @@ def tree(root, skip=()):
         for n in files:
             out[os.path.relpath(os.path.join(d, n), root)] = 'file'
     return out
+
+
+# ---------------------------------------------------------------------------
+# real names / trees  ->  terms of coq/Model/FS.v
+# ---------------------------------------------------------------------------
+import re
+import zlib
+
+from . import common as C
+
+_RX = [(re.compile(r'^part\.(0|[1-9]\d*)\.parquet$'), 'NPart'),
+       (re.compile(r'^part(0|[1-9]\d*)\.parquet$'), 'NSub'),
+       (re.compile(r'^t(0|[1-9]\d*)$'), 'NTmp')]
+
+
+def name_term(s):
+    """the injective parser of Model/FS.v's header comment"""
+    for rx, ctor in _RX:
+        m = rx.match(s)
+        if m:
+            return C.Rec(ctor, C.Nat(int(m.group(1))))
+    if s == '_metadata':
+        return C.Rec('NMeta')
+    if s == '_common_metadata':
+        return C.Rec('NCommon')
+    return C.Rec('NStr', s)
+
+
+def path_term(rel):
+    rel = rel.strip('/')
+    return [name_term(c) for c in rel.split('/')] if rel else []
+
+
+def cells_term(cells):
+    return [(C.Nat(i), C.Nat(n)) for i, n in cells]
+
+
+def opaque_id(data):
+    return zlib.crc32(data) & 0x7fffffff
+
+
+def fs_term(root, classify):
+    """every entry under root as (path, node); classify(relpath, abspath) -> content term"""
+    out = []
+    root = os.path.realpath(root)
+    for d, dirs, files in os.walk(root):
+        dirs.sort()
+        for n in sorted(dirs):
+            rp = os.path.relpath(os.path.join(d, n), root)
+            out.append((path_term(rp), C.Rec('Dir')))
+        for n in sorted(files):
+            ap = os.path.join(d, n)
+            rp = os.path.relpath(ap, root)
+            out.append((path_term(rp), C.Rec('File', classify(rp, ap))))
+    return out
+
+
+def classify_opaque(rp, ap):
+    data = open(ap, 'rb').read()
+    m = re.match(rb'^opaque:(\d+)$', data)
+    if m:
+        return C.Rec('COpaque', int(m.group(1)))
+    if not data:
+        return C.Rec('CPartial')
+    return C.Rec('COpaque', opaque_id(data))
